@@ -11,4 +11,5 @@ S_ssd    == <<<<"send", "send", "drop">>>>
 CapNone == 0 - 1
 PrintSched == (RecordHist /\ Done) =>
    PrintT(<<"SCHED", ToJson([scripts |-> Scripts, ndisp |-> NDisp, cap |-> Cap, limit |-> Limit, sched |-> sched, hist |-> hist, blocked |-> IF everBlocked THEN 1 ELSE 0])>>)
+ASSUME PrintT(<<"CFG", ToJson([scripts |-> Scripts, ndisp |-> NDisp, cap |-> Cap, limit |-> Limit])>>)
 =============================================================================
